@@ -59,3 +59,23 @@ void * nw_builtin_flag_ignored(size_t n, size_t sz)
     (void)__builtin_mul_overflow(n, sz, &bytes);
     return malloc(bytes);
 }
+
+/* ---- compute-then-check; guards whose outcomes merge again; decrementing loops ---------------------- */
+void * nw_compute_then_check(size_t n, size_t sz)
+{
+    const size_t bytes = n * sz;
+    if (sz != 0 && bytes / sz != n) { return NULL; }
+    return malloc(bytes);
+}
+void * nw_compute_then_check_wrong(size_t n, size_t sz)
+{
+    const size_t bytes = n * sz;
+    if (sz != 0 && bytes / sz != sz) { return NULL; }      /* compares with the wrong operand */
+    return malloc(bytes);
+}
+void * nw_reject_form(size_t n, size_t sz)
+{
+    if (sz == 0 || n >= SIZE_MAX / sz) { return NULL; }
+    return malloc((n + 1) * sz);
+}
+
